@@ -283,10 +283,11 @@ esl_msafile_a2m_Read(ESL_MSAFILE *afp, ESL_MSA **ret_msa)
 
 	for (spos = thislen, bpos = 0; bpos < n; bpos++)
 	  {
-	    if      (p[bpos] == 'O')   continue;
+	    if      (p[bpos] == 'O' || p[bpos] == 'o') continue; /* the input map ignores both: no residue is stored, so no flag either */
 	    else if (isupper(p[bpos])) { csflag[nseq][spos++] = TRUE;  this_ncons++;            }
 	    else if (islower(p[bpos])) { csflag[nseq][spos++] = FALSE; this_nins[this_ncons]++; }
 	    else if (p[bpos] == '-')   { csflag[nseq][spos++] = TRUE;  this_ncons++;            }
+	    else if (p[bpos] == '\0')  ESL_XFAIL(eslEFORMAT, afp->errmsg, "one or more invalid sequence characters"); /* esl_strmapcat()/esl_abc_dsqcat() would store inmap[0] for a NUL byte, with no flag for it */
 	    if (nseq  && this_ncons > ncons) ESL_XFAIL(eslEFORMAT, afp->errmsg,  "unexpected # of consensus residues, didn't match previous seq(s)");
 	  }
 	csflag[nseq][spos] = TRUE; /* need a sentinel, because of the way the padding functions work */
